@@ -393,7 +393,7 @@ package main
 (func "(*main.store).init"
   (props C17)
   (requires has-dir (not (= (. s dir) nil)))
-  (modifies fs.ent fs.dir fs.data fs.dsync fs.esync fs.next io.faults br.pos rnd now hm.msg)
+  (modifies fs.ent fs.dir fs.data fs.dsync fs.esync fs.next io.faults br.pos rnd now hm.msg rd.pos)
   (callsite "(*store.Dir).Init" 0
     (requires policy-accepted (policyok (. s policy) $2 $1))
     (requires arguments (and (= $0 (. s dir)) (= $1 username) (= $2 password))))
